@@ -20,7 +20,7 @@ RULE = ("schemas of depth <= 4 and width <= 6 with identifier keys whose option 
         "and mutated states: the state afterwards must equal 'supplied and not ignored options set to their normal "
         "form and marked user-defined, every other value and flag untouched'; non-trivial = >= 4 paths and >= 1 "
         "command line applied; distinct = distinct (schema, state, command line)")
-REQUIRED = ("instance_methods_looked_up_by_path", "number_fields_declared_with_the_base_class", "membership_negatives", "schema_iterations_compared", "parsed_arguments_reused_with_another_ignore_list", "parser_from_schema_method", "sections_nested_in_a_section_of_the_same_name", "mode_helper_replaces_an_earlier_field", "rejected_command_lines_applied_again", "schemas_with_names_of_schema_methods_or_odd_underscores", "schema_grown_after_enumeration", "paths_checked", "dotted_assignments_checked", "parsers_compared", "overrides_compared", "argv:empty",
+REQUIRED = ("parser_from_a_configuration_with_state", "parsed_arguments_applied_to_a_fresh_configuration", "instance_methods_looked_up_by_path", "number_fields_declared_with_the_base_class", "membership_negatives", "schema_iterations_compared", "parsed_arguments_reused_with_another_ignore_list", "parser_from_schema_method", "sections_nested_in_a_section_of_the_same_name", "mode_helper_replaces_an_earlier_field", "rejected_command_lines_applied_again", "schemas_with_names_of_schema_methods_or_odd_underscores", "schema_grown_after_enumeration", "paths_checked", "dotted_assignments_checked", "parsers_compared", "overrides_compared", "argv:empty",
             "argv:bool-on", "argv:bool-off", "argv:bool-both-switches", "argv:value", "argv:repeated", "argv:invalid", "ignore:str", "ignore:list",
             "state:mutated", "depth>=3")
 ASSUMPTIONS = ["enumeration is judged on root schemas / configurations; membership is demanded of stored fields only",
@@ -158,7 +158,8 @@ def generate(rng, ctx):
             holder["fields"].append({"kind": "field", "key": "runmode", "family": "appmode",
                                      "params": {"modes": ["dev", "prod"], "create_helpers": True, "default": "prod"}})
             schema["helper_collision"] = True
-    return {"schema": schema, "state_ops": state_ops, "cmdlines": cmdlines, "via_schema_method": rng.random() < 0.4}
+    return {"schema": schema, "state_ops": state_ops, "cmdlines": cmdlines, "via_schema_method": rng.random() < 0.3,
+            "parser_from_config": rng.random() < 0.5}
 
 
 def abbreviate(case):
@@ -368,6 +369,10 @@ def run(case, ctx, res):
                 warnings.simplefilter("ignore")
                 parser = schema.generate_argparse_parser()
             res.count("parser_from_schema_method")
+        elif case.get("parser_from_config"):
+            # the parser is made from the configuration (in the state it has now) instead of from the schema
+            parser = cc.generate_argparse_parser(cfg)
+            res.count("parser_from_a_configuration_with_state")
         else:
             parser = cc.generate_argparse_parser(schema)
     except Exception as exc:
@@ -473,6 +478,23 @@ def run(case, ctx, res):
         if fd:
             res.viol("M-override", feat + ":flags", "command line %r (ignore %r) changed the user-defined status of %r" % (argv, ign, fd[:5]))
             return
+        if case.get("parser_from_config"):
+            # the same parsed arguments applied to a configuration that was just built: only what the user supplied arrives
+            from ..common import defined_map
+
+            fourth = cc.Config(drv.built.schema, key_filename=drv.keyfile)
+            try:
+                cc.cmdline_args_override(fourth, args, ignore=ign)
+            except Exception as exc:
+                res.viol("M-override", "fresh-configuration:raises", "applying %r to a configuration that was just built raised %r" % (argv, exc))
+                return
+            stray = [p for p, on in defined_map(fourth).items() if on is True and p not in supplied and
+                     (spec.node_at(root, p) or {}).get("kind") == "field"]
+            res.count("parsed_arguments_applied_to_a_fresh_configuration")
+            if stray:
+                res.viol("M-override", "fresh-configuration:values-not-supplied", "command line %r parsed with a parser made from a configuration "
+                         "and applied to a freshly built one: %r became user-defined although the user did not supply them" % (argv, stray[:5]))
+                return
         if ign_list and not invalid and not unknown and all(
                 model.accepts(spec.node_at(root, p), v, env)[0] is True for p, v in supplied.items()):
             # the SAME parsed arguments applied again, this time ignoring nothing: everything the user supplied arrives
